@@ -148,7 +148,7 @@ def to_trace(cfg, real):
                 for j, x in enumerate(r):
                     if isinstance(x, float) and float(x).is_integer():
                         r[j] = int(x)
-    return dict(cfg=cfg, ev=real["hist"], fin=fin)
+    return dict(cfg={k: v for k, v in cfg.items() if k != "scale"}, ev=real["hist"], fin=fin)
 
 
 def validate_traces(lines, timeout=900):
